@@ -1149,6 +1149,19 @@ func cmdQuery(args []string) error {
 				}
 			}
 		}
+		// a binding that stands for the predicate AND the object of a clause (?a ?b ?b), under a FILTER: which position
+		// the filter looks at is fixed (the predicate's)
+		selfScenario := (*mode == "plain" || *mode == "optional") && sc%6 == 4
+		if selfScenario {
+			p1, p2, p3 := mustTmp("p", qt0), mustTmp("p", qt1), mustImm("p")
+			for i, po := range [][2]*predicate.Predicate{{p1, p1}, {p2, p2}, {p1, p2}, {p2, p1}, {p3, p3}, {p3, p2}, {p1, p3}} {
+				t, err := triple.New(mustNode("/u", []string{"a", "b", "c"}[i%3]), po[0], triple.NewPredicateObject(po[1]))
+				if err == nil && !seen[t.String()] {
+					seen[t.String()] = true
+					g.define(t)
+				}
+			}
+		}
 		// extracted IDs that begin or end with white space (/u<joe >, /u< zed>): HAVING compares them as they are
 		spaceScenario := *mode == "having" && sc%4 == 2
 		if spaceScenario {
@@ -1264,6 +1277,14 @@ func cmdQuery(args []string) error {
 					strings.Join(names[:nfrom], ", "), []string{"?sid, ?oid", "?oid, ?sid"}[k])
 				q.intent = ""
 				q.hist["string-keys-with-separator"]++
+			}
+			if selfScenario && k < 4 {
+				text = fmt.Sprintf("select ?a, ?b from %s where { ?a ?b ?b . filter %s(?b) };", strings.Join(names[:ng], ", "), []string{"latest", "isTemporal", "isImmutable", "latest"}[k])
+				if k == 3 {
+					text = fmt.Sprintf("select ?a, ?b, ?c from %s where { ?a ?b ?c . ?c ?b ?b . filter latest(?b) };", strings.Join(names[:ng], ", "))
+				}
+				q.intent = ""
+				q.hist["filter-on-predicate-and-object-binding"]++
 			}
 			if zoneScenario && k < 3 {
 				text = []string{
